@@ -1235,9 +1235,8 @@ fn build_space(tier: Tier, ci: usize) -> (Vec<Case>, String) {
             } else {
                 vec![(Kind::Audio, 0), (Kind::Video, 1), (Kind::App, 0), (Kind::Image, 0)]
             };
-            if !thorough && n >= 5 && webrtc && ci != 0 {
-                // quick: 5 and 6 sections only on the default WebRTC configuration and the
-                // three non-WebRTC configurations
+            if !thorough && n >= 5 && c.name != "default" && c.name != "rtp-mode" {
+                // quick: 5 and 6 sections only on the default WebRTC and the plain RTP configuration
                 continue;
             }
             for &mid in &MIDS {
@@ -1307,7 +1306,7 @@ fn space_statement(tier: Tier) -> Vec<String> {
         v.push("block D (two negotiations): base offers = block A's 678 one-section letters and all ordered pairs over 8 letters (kind x mid {numeric, absent}, audio opus+PCMU+telephone-event / video VP8+RTX, extmap ids 1-3, sendrecv, rtcp-mux), each x BUNDLE {all, none}, setup actpass; the first answer is applied with set_local_description and a second offer = one of 7 change operators {identical, direction flip (sendrecv<->sendonly), next codec list, next extmap set, append a section, toggle rtcp-mux, toggle BUNDLE} of the first is negotiated".to_string());
     } else {
         v.push("block B (two sections): all ordered pairs over 54 letters (audio codec {PCMU, opus+PCMU+telephone-event}, video codec {VP8+RTX, H264(96)+VP8(98)}, extmap {none, colliding}, direction {sendrecv, sendonly}, rtcp-mux yes, mid 3; application/image x mid 3) x BUNDLE {all, none} x (WebRTC flavour) setup {actpass, active}".to_string());
-        v.push("block C (3..6 sections): all words of length 3 and 4 over 6 letters {audio sendrecv, audio recvonly, video sendonly, video inactive, application, image} on all 8 configurations, and of length 5 and 6 over 4 letters {audio sendrecv, video sendonly, application, image} on default, rtp-mode, srtp-mode, legacy-sip (first codec list, extmap ids 1-3, rtcp-mux, setup actpass) x one mid scheme per offer {numeric, token, absent} x BUNDLE {all, none}".to_string());
+        v.push("block C (3..6 sections): all words of length 3 and 4 over 6 letters {audio sendrecv, audio recvonly, video sendonly, video inactive, application, image} on all 8 configurations, and of length 5 and 6 over 4 letters {audio sendrecv, video sendonly, application, image} on default and rtp-mode (first codec list, extmap ids 1-3, rtcp-mux, setup actpass) x one mid scheme per offer {numeric, token, absent} x BUNDLE {all, none}".to_string());
         v.push("block D (two negotiations): base offers = one section over 168 letters (audio 3 codec lists / video {VP8+RTX, H264(102)+VP8(96), H264(96)+VP8(98)}, extmap {none, ids 1-3, colliding}, direction {sendrecv, sendonly, inactive}, rtcp-mux yes, mid 3; application/image x mid 3) and all ordered pairs over 8 letters (kind x mid {numeric, absent}, audio opus+PCMU+telephone-event / video VP8+RTX, extmap ids 1-3, sendrecv, rtcp-mux), each x BUNDLE {all, none}, setup actpass; the first answer is applied with set_local_description and a second offer = one of 7 change operators {identical, direction flip (sendrecv<->sendonly), next codec list, next extmap set, append a section, toggle rtcp-mux, toggle BUNDLE} of the first is negotiated".to_string());
     }
     v
